@@ -422,6 +422,18 @@ def run(tier: str, seed: int) -> Result:
     for sig, msg in dfails:
         col.add(sig, msg, {"builder": "detached-metadata"})
     n_pairs += n_det
+    # size ladder: B = every ladder HUGR (wide nodes, fan-out n, nesting depth n, n cases / blocks, reused indices ...)
+    from mc.drivers import ladder
+
+    n_ladder = 0
+    for lcase in ladder.cases_for(tier, hosts=("dfg", "fn")):
+        for hname, hf in hosts():
+            A = hf()
+            par = [x.idx for x in A][-1]
+            n_ladder += 1
+            for sig, msg in check_insert(ladder.build(lcase), A, par, f"B=ladder{lcase} host={hname} parent={par}"):
+                col.add(f"{sig}:ladder-{lcase[0]}", msg, {"ladder": lcase, "host": hname, "parent": par})
+    n_pairs += n_ladder
     col.sample({"B-history": hists[len(hists) // 2], "hosts": [h for h, _ in hosts()]})
     col.sample({"builder_case": bc[1][0]})
     cov = {
@@ -433,17 +445,24 @@ def run(tier: str, seed: int) -> Result:
         "rule": "B = every distinct store state of the C04 machine up to the depth bound (non-trivial = not the empty module); for each B, "
         "every host x every node of the host as parent: insert_hugr and compare mapping, ops, parents, child order, metadata, out-port "
         "counts, link multiset incl. order links, host unchanged, B unchanged; plus insert_nested/_cfg/_conditional/_tail_loop from 4 "
-        "receiving builders (root, nested, function body, host with a freed index)",
+        "receiving builders (root, nested, function body, host with a freed index); plus B = every size-ladder HUGR of mc/drivers/ladder.py "
+        "inserted into every host",
         "samples": col.samples,
         "exhaustive": True,
         "bounds": {k: (list(v) if isinstance(v, tuple) else v) for k, v in BOUNDS[tier].items()},
         "insert_pairs": n_pairs,
+        "ladder_inserts": n_ladder,
         "builder_cases": len(bc),
     }
     return Result(cov, col.violations, ["B states are produced by the C04 machine (checked against R1 there)", "metadata dictionaries may be shared objects; only their contents are compared"])
 
 
 def replay(case) -> list[Violation]:
+    if "ladder" in case:
+        from mc.drivers import ladder
+
+        A = dict(hosts())[case["host"]]()
+        return [Violation(f"{s}:ladder-{case['ladder'][0]}", m, case) for s, m in check_insert(ladder.build(case["ladder"]), A, case["parent"], f"B=ladder{case['ladder']} host={case['host']} parent={case['parent']}")]
     if "builder" in case:
         if case["builder"] == "fragment-unchanged":
             return [Violation(s, m, case) for s, m in check_fragment_unchanged()]
